@@ -515,14 +515,19 @@ func (l *Lexer) consumeQuotedContent(q string, raw, unicode bool, name string, n
 			case '\\', '?', '"', '\'', '`':
 				content = append(content, c)
 			case 'x', 'X':
+				valid := true
 				for j := 0; j < 2; j++ {
 					if !(l.peekOk(i+j) && char.IsHexDigit(l.peek(i+j))) {
 						if noPanic {
 							hasError = true
-							continue
+							valid = false
+							break
 						}
 						l.panicfAtPosition(token.Pos(l.pos+i-2), token.Pos(l.pos+i+j+1), "invalid escape sequence: hex escape sequence must be follwed by 2 hex digits")
 					}
+				}
+				if !valid {
+					continue
 				}
 				u, err := strconv.ParseUint(l.slice(i, i+2), 16, 8)
 				if err != nil {
@@ -546,14 +551,19 @@ func (l *Lexer) consumeQuotedContent(q string, raw, unicode bool, name string, n
 				if c == 'U' {
 					size = 8
 				}
+				valid := true
 				for j := 0; j < size; j++ {
 					if !(l.peekOk(i+j) && char.IsHexDigit(l.peek(i+j))) {
 						if noPanic {
 							hasError = true
-							continue
+							valid = false
+							break
 						}
 						l.panicfAtPosition(token.Pos(l.pos+i-2), token.Pos(l.pos+i+j+1), "invalid escape sequence: \\%c must be followed by %d hex digits", c, size)
 					}
+				}
+				if !valid {
+					continue
 				}
 				u, err := strconv.ParseUint(l.slice(i, i+size), 16, 32)
 				if err != nil {
@@ -575,14 +585,19 @@ func (l *Lexer) consumeQuotedContent(q string, raw, unicode bool, name string, n
 				content = append(content, buf[:n]...)
 				i += size
 			case '0', '1', '2', '3':
+				valid := true
 				for j := 0; j < 2; j++ {
 					if !(l.peekOk(i+j) && char.IsOctalDigit(l.peek(i+j))) {
 						if noPanic {
 							hasError = true
-							continue
+							valid = false
+							break
 						}
 						l.panicfAtPosition(token.Pos(l.pos+i-2), token.Pos(l.pos+i+j+1), "invalid escape sequence: octal escape sequence must be follwed by 3 octal digits")
 					}
+				}
+				if !valid {
+					continue
 				}
 				u, err := strconv.ParseUint(l.slice(i-1, i+2), 8, 8)
 				if err != nil {
